@@ -81,6 +81,7 @@ def run(fx, R, tier):
     R.floor('B3', 4)
     R.floor('B5', 8)
     check_seeds_and_stats(fx, R)
+    check_containers(fx, R)
     check_aabb(fx, R)
     check_obb(fx, R)
     check_interval(fx, R)
@@ -174,6 +175,57 @@ def check_seeds_and_stats(fx, R):
                 continue
             R.used(gf)
             R.check(returns(gf) == [nm], 'B7', '%s::%s' % (cname, g), '%s returns %s, not %s' % (g, returns(gf), nm), 'returns ' + nm, fx.rel(gf['loc']), 'E-SIB')
+
+
+def seed_node(f, varname):
+    """The argument node of X::Constant(<seed>) in the declaration of the accumulator."""
+    for x in walk(f['body']):
+        if x.get('k') == 'Decl':
+            for v in x['vars']:
+                if v['name'] == varname and v.get('init') is not None:
+                    for y in walk(v['init']):
+                        if y.get('k') == 'Call' and (y.get('fn') or '').endswith('::Constant') and len(y.get('args', [])) == 1:
+                            return y['args'][0]
+    return None
+
+
+def check_containers(fx, R):
+    """EigenContainers min / max / mean (header-only; instantiated in the synthetic unit for Array2d / Array3f / Vector2d / Vector3f)."""
+    fns = [f for f in fx.functions.values() if any(f['q'].startswith('romea::core::%s<std::vector<' % n) for n in ('min', 'max', 'mean'))]
+    if len(fns) < 6:
+        R.undecided('B1', 'EigenContainers', 'only %d instantiations of min/max/mean found (6 expected in the synthetic unit)' % len(fns))
+    for f in sorted(fns, key=lambda f: f['q']):
+        R.used(f)
+        kind = f['q'].split('<')[0].split('::')[-1]
+        loc = fx.rel(f['loc'])
+        tag = ' [%s]' % short_fn(f['q'])[:60]
+        loops = [x for x in walk(f['body']) if x.get('k') == 'RangeFor']
+        ex = exprs(f)
+        rets = returns(f)
+        whole = len(loops) == 1 and deep_unwrap(sx(loops[0]['range'])) == 'points'
+        R.check(whole, 'B7', 'EigenContainers::%s:range' % kind, 'the loop does not run over the whole container%s' % tag, 'visits every point' + tag, loc, 'E-STATE')
+        if kind in ('min', 'max'):
+            acc = rets[0] if len(rets) == 1 and isinstance(rets[0], str) else None
+            upd = [s_ for s_ in ex if isinstance(s_, tuple) and s_[0] == '=' and s_[1] == acc]
+            okop = len(upd) == 1 and upd[0][2] in (('.' + kind, acc, 'point'), ('.cwise' + kind.capitalize(), acc, 'point'))
+            if acc is None or len(upd) != 1:
+                R.undecided('B7', 'EigenContainers::%s:update' % kind, 'accumulator update not recognised%s' % tag)
+                continue
+            R.check(okop, 'B7', 'EigenContainers::%s:update' % kind, 'running %simum is updated by %s%s' % (kind, upd[0][2], tag), 'acc <- %s(acc, point)' % kind + tag, loc, 'E-SIB')
+            seed = seed_node(f, acc)
+            cv = const_value(seed) if seed is not None else None
+            t = strip_casts(seed)['t'] if seed is not None else {}
+            if cv is None or t.get('bits') not in LOWEST:
+                R.undecided('B1', 'EigenContainers::%s:seed' % kind, 'seed not a folded floating constant%s' % tag)
+                continue
+            lowest = LOWEST[t['bits']]
+            ok = (cv == '-inf' or (isinstance(cv, (int, float)) and cv <= lowest)) if kind == 'max' else (cv == 'inf' or (isinstance(cv, (int, float)) and cv >= -lowest))
+            R.check(ok, 'B1', 'EigenContainers::%s:seed' % kind, 'running %simum seeded with %s = %s, which is not %s every %d-bit input%s' % (kind, pp(seed), cv, '<=' if kind == 'max' else '>=', t['bits'], tag),
+                    'seed %s = %s' % (pp(seed), cv) + tag, loc, 'E-INT')
+        else:
+            acc = rets[0] if len(rets) == 1 and isinstance(rets[0], str) else None
+            ok = acc is not None and ('+=', acc, 'point') in ex and ('/=', acc, ('.size', 'points')) in ex and ex.index(('+=', acc, 'point')) < ex.index(('/=', acc, ('.size', 'points')))
+            R.check(ok, 'B7', 'EigenContainers::mean', 'mean is %s, expected (sum of the points) / size%s' % (ex, tag), 'mean = sum / size' + tag, loc, 'E-ALG')
 
 
 # ---------------------------------------------------------------------------------------------
